@@ -105,6 +105,34 @@ theorem rr_backlog_single_advance (w : W) (j j' : Job) (hint : Option Nat) (k : 
         simp only [hz, Bool.false_eq_true, if_false, this, Bool.or_true, if_true, hw]
       · simp [hw] at h1
 
+/-- (round-robin over whole dispatches) For ANY state with the pool shape of a reachable one (`C15.pool_shape`), `n > 0`
+workers, no rate limiter, the factory not draining: handling the dispatch of a non-expired job hands it to the slot
+AFTER the one chosen last (`rrNext last n`), whether that worker is busy or not, and moves the rotation there — so `n`
+consecutive dispatches visit the `n` slots of `rr_spread`, one each. -/
+theorem rr_dispatch_takes_next_slot (w : W) (j : Job) (hr : w.cfg.router = .rr) (hrl : w.rl = none)
+    (hne : j.expired w.env.now = false) (hd : w.drain = .notDraining) (hs : Shape w.poolSize w.pool) (hn : w.poolSize ≠ 0) :
+    (w.dispatch j).last = rrNext w.last w.poolSize ∧
+    ∃ p, getW w.pool (rrNext w.last w.poolSize) = some p ∧
+      getW (w.dispatch j).pool (rrNext w.last w.poolSize) = some (p.enqueueJob w.env j).1 := by
+  have hpos : 0 < w.poolSize := Nat.pos_of_ne_zero hn
+  have hw := hs.full (rrNext w.last w.poolSize) (rrNext_lt _ _ hpos)
+  obtain ⟨p, hg⟩ := hasW_getW hw
+  have hz : (w.poolSize == 0) = false := by simpa using hn
+  have hch : w.chooseTargetWorker j none = (some (rrNext w.last w.poolSize), { w with last := rrNext w.last w.poolSize }) := by
+    rw [rr_choose_eq w j none hr]
+    simp only [hz, Bool.false_eq_true, if_false, hintAvailable, hintLast, Bool.or_self, hw, if_true]
+  have hri : w.routeInner j none = (.handled, { w with
+      last := rrNext w.last w.poolSize
+      pool := setW w.pool (rrNext w.last w.poolSize) (p.enqueueJob w.env j).1
+      env := (p.enqueueJob w.env j).2 }) := by
+    unfold W.routeInner
+    rw [hch]
+    simp only [hg]
+  have hdn : (w.drain == Drain.notDraining) = true := by rw [hd]; rfl
+  unfold W.dispatch W.routeMessage W.routeLimited
+  simp only [hne, Bool.false_eq_true, if_false, hdn, if_true, hrl, hri]
+  exact ⟨trivial, p, hg, getW_setW_same hg (by rw [enqueueJob_wid]; exact getW_wid hg)⟩
+
 /-! ## Affinity (key-persistent routing) -/
 
 /-- (affinity, the part that is true of the code — `_partial`) With key-persistent routing, for
@@ -528,6 +556,7 @@ end C14
 #print axioms C14.rr_router_step
 #print axioms C14.rr_choose_eq
 #print axioms C14.rr_backlog_single_advance
+#print axioms C14.rr_dispatch_takes_next_slot
 #print axioms C14.affinity_partial
 #print axioms C14.affinity_unique_slot
 #print axioms C14.kp_routes_to_holder
